@@ -33,6 +33,8 @@ import json, math, os, shutil, struct
 from harness.gen import c08_inst as G
 
 REL = 1e-9
+IMPL_BUDGET = 6e5       # size bound (operations) for the implementation-structured model in Float
+IMPL_BUDGET_RAT = 6e4   # ... over exact rationals
 EXACT_REL = 1e-12      # implementation floats vs the exact rational posterior (c08.fbrat): relative, + 1e-300 absolute
 RULE = ("well-formed instances (sorted reads with >= 2 variants each, 0/1 alleles, positive priors) over single individuals, "
         "trios (both individual orders), quartets, unrelated pairs and a three-generation pedigree; non-trivial = at least "
@@ -354,9 +356,33 @@ class Batch:
                 reqs.append(model_req(case, "c08.fb", scal)); back.append((n, "fb-scaled"))
             if want_brute:
                 reqs.append(model_req(case, "c08.brute")); back.append((n, "brute"))
+            if G.impl_cost(case) <= IMPL_BUDGET:
+                # the implementation-structured model (Gray walk, incremental cost computers, scatter-adds, the code's own
+                # scaling sums, check-pointing): with the code's spacing k = floor(sqrt(n)) and with another spacing
+                reqs.append(model_req(case, "c08.impl")); back.append((n, "impl"))
+                k2 = 1 + (n * 7 + case["n_cols"]) % max(1, case["n_cols"])
+                reqs.append(dict(model_req(case, "c08.impl"), k=k2)); back.append((n, "impl-k%d" % k2))
         answers = ctx.model.ask_many(reqs) if reqs else []
         for (n, kind), ans in zip(back, answers):
             case, impl, _, scal = self.items[n]
+            if kind.startswith("impl"):
+                lik = decode(ans, "lik")
+                if lik is None:
+                    ctx.disagree("c08.impl", case, "likelihoods", ans); continue
+                ctx.extra["impl_model_checked"] = ctx.extra.get("impl_model_checked", 0) + 1
+                if any(ans.get("recomputed", [])):
+                    ctx.extra["impl_model_with_recomputation"] = ctx.extra.get("impl_model_with_recomputation", 0) + 1
+                dev = max_dev(impl, lik)
+                ctx.extra["max_rel_dev_impl_model"] = max(ctx.extra.get("max_rel_dev_impl_model", 0.0), dev)
+                if dev > REL:
+                    ctx.disagree("c08." + kind, case, impl, lik)
+                if kind == "impl":
+                    # which columns the code re-computes: exactly those whose index is not a multiple of floor(sqrt(n))
+                    nc = case["n_cols"]; kk = math.isqrt(nc)
+                    want = [bool(kk > 1 and c + 1 < nc and c % kk != 0) for c in range(nc)]
+                    if ans.get("recomputed") != want:
+                        ctx.disagree("c08.impl/recomputed-columns", case, want, ans.get("recomputed"))
+                continue
             if kind == "brute":
                 post = decode(ans, "post")
                 if post is None:
@@ -475,7 +501,27 @@ class ExactBatch:
                    "recomb": case["recomb"], "priors": [[[frac_str(x) for x in p] for p in ind] for ind in case["priors"]], "brute": bool(brute),
                    "em0": frac_str(0.9999)}     # genotypecolumncostcomputer.cpp: `result[0] = 0.9999;` (a double literal)
             reqs.append(req)
-        answers = ctx.model.ask_many(reqs) if reqs else []
+        # the implementation-structured model over exact rationals, with the code's spacing and with a second spacing:
+        # must be the IDENTICAL rationals (impl_posterior_eq_model, ckpt_transparent)
+        ireqs, iback = [], []
+        for n, (case, impl, brute) in enumerate(self.items):
+            if G.impl_cost(case) <= IMPL_BUDGET_RAT:
+                base = dict(reqs[n], op="c08.implrat"); base.pop("brute", None)
+                ireqs.append(base); iback.append((n, None))
+                k2 = 1 + (n * 5 + case["n_cols"]) % max(1, case["n_cols"])
+                ireqs.append(dict(base, k=k2)); iback.append((n, k2))
+        answers = ctx.model.ask_many(reqs + ireqs) if reqs else []
+        ianswers = answers[len(reqs):]; answers = answers[:len(reqs)]
+        for (n, k2), ians in zip(iback, ianswers):
+            case = self.items[n][0]
+            if not isinstance(ians, dict) or "lik" not in ians:
+                ctx.disagree("c08.implrat", case, "likelihoods", ians); continue
+            if ians.get("zero_scaling") or (isinstance(answers[n], dict) and answers[n].get("zero_total")):
+                continue
+            ctx.extra["exact_impl_model_checked"] = ctx.extra.get("exact_impl_model_checked", 0) + 1
+            if not isinstance(answers[n], dict) or ians["lik"] != answers[n].get("lik"):
+                ctx.disagree("c08.implrat/impl-structured-vs-forward-backward" + ("" if k2 is None else "/k=%d" % k2), case,
+                             "identical rationals", "different")
         for (case, impl, brute), ans in zip(self.items, answers):
             if not isinstance(ans, dict) or "lik" not in ans:
                 ctx.disagree("c08.fbrat", case, "likelihoods", ans); continue
